@@ -72,6 +72,9 @@ func (g *gen) raiseStmts() []Stmt {
 // raises.
 func (g *gen) protectedBody(mustRaise bool) ([]Stmt, bool) {
 	savedFn, savedLoop := g.inFn, g.loopDepth
+	savedVar := g.varargOK
+	g.varargOK = false // the body is a non-vararg function
+	defer func() { g.varargOK = savedVar }()
 	fi := &fnInfo{impure: true}
 	g.inFn, g.loopDepth = fi, 0
 	g.fdepth++
@@ -224,6 +227,10 @@ func (g *gen) closerExpr(id string, behaviour int) Expr {
 
 func (g *gen) closeStmt() []Stmt {
 	g.feat("to-be-closed")
+	// the body may end up inside a (non-vararg) function literal
+	savedVar := g.varargOK
+	g.varargOK = false
+	defer func() { g.varargOK = savedVar }()
 	n := 1 + g.n(3, "close-n")
 	var body []Stmt
 	handlerRaises := false
